@@ -12,6 +12,7 @@ import (
 	"runtime"
 	"strconv"
 	"strings"
+	"sync"
 	"sync/atomic"
 	"testing"
 	"time"
@@ -42,6 +43,9 @@ type execSpec struct {
 	Role     string `json:"role"`      // holder: parks in the function on a gate | burst: returns at once | waiter: submitted while the bulkhead is full
 	FailN    int    `json:"fail_n"`    // the first n invocations of this execution return errX
 	CancelMe bool   `json:"cancel_me"` // an action cancels this execution's context (while it waits for a permit or holds one)
+	// CustomCtx: the execution's context is a hand-written context.Context (own Done / Err, values delegated to a standard
+	// cancellable parent that is never cancelled), cancelled by CancelMe like the others
+	CustomCtx bool `json:"custom_ctx,omitempty"`
 	// DeadlineUs: the execution's context carries a deadline this many microseconds after submission (it expires while the
 	// execution waits for a permit, or holds one)
 	DeadlineUs int `json:"deadline_us,omitempty"`
@@ -57,6 +61,27 @@ type scenario struct {
 	// Waiters: callers of the standalone blocking API that are cancelled while every permit is held (a final phase)
 	Waiters       int `json:"waiters,omitempty"`
 	WaitersSpinUs int `json:"waiters_spin_us,omitempty"`
+}
+
+// ownDoneCtx is a legal context.Context that is not one of the standard library's: it is done when cancel is called,
+// whatever its parent does, and delegates values to the parent.
+type ownDoneCtx struct {
+	parent context.Context
+	done   chan struct{}
+	once   sync.Once
+}
+
+func (c *ownDoneCtx) Deadline() (time.Time, bool) { return time.Time{}, false }
+func (c *ownDoneCtx) Done() <-chan struct{}       { return c.done }
+func (c *ownDoneCtx) Value(k any) any             { return c.parent.Value(k) }
+func (c *ownDoneCtx) cancel()                     { c.once.Do(func() { close(c.done) }) }
+func (c *ownDoneCtx) Err() error {
+	select {
+	case <-c.done:
+		return context.Canceled
+	default:
+		return nil
+	}
 }
 
 func waitOf(s string) time.Duration {
@@ -160,6 +185,10 @@ func run(sc scenario) (out runOut) {
 		st := states[i]
 		ctx, cancel := context.WithCancel(context.Background())
 		st.cancel = cancel
+		if st.spec.CustomCtx {
+			oc := &ownDoneCtx{parent: ctx, done: make(chan struct{})}
+			ctx, st.cancel = oc, oc.cancel
+		}
 		if st.spec.DeadlineUs > 0 {
 			var c2 context.CancelFunc
 			ctx, c2 = context.WithTimeout(ctx, time.Duration(st.spec.DeadlineUs)*time.Microsecond)
@@ -442,6 +471,7 @@ func genScenario(t *rapid.T) scenario {
 			FailN:   rapid.SampledFrom([]int{0, 0, 1, 5}).Draw(t, "failN"),
 		}
 		sp.CancelMe = rapid.IntRange(0, 3).Draw(t, "cancelMe") == 0
+		sp.CustomCtx = sp.CancelMe && rapid.IntRange(0, 2).Draw(t, "customCtx") == 0
 		if rapid.IntRange(0, 5).Draw(t, "deadline") == 0 {
 			sp.DeadlineUs = rapid.SampledFrom([]int{1, 100, 600, 2000}).Draw(t, "deadlineUs")
 		}
